@@ -6,7 +6,7 @@ PROP = {
     "streams": [{"name": "robust"}],
     "rule": "robust: (1) exhaustive boundary matrix: every filter registered in filters/*.go (read from the source at run "
             "time) x receiver in U x argument tuples in U^arity plus one over-arity call, every comparison/boolean "
-            "operator x U x U, 31 access/loop/tag forms x U (x U), U = 22 (quick) / 57 (thorough) boundary values (typed zeros "
+            "operator x U x U, 31 access/loop/tag forms x U (x U), 12 cases on a cyclic include layout (a file that includes itself, a 2-cycle behind a condition), U = 22 (quick) / 57 (thorough) boundary values (typed zeros "
             "int64(0), uint(0) and an array holding a nil and a non-nil pointer included); a "
             "family of pure templates over ranges with extreme endpoints and lengths around the array-conversion bound; 299 whole templates "
             "about times ({{ t }}, t | date with and without a format, date on date strings of every modelled layout and on strings no layout "
@@ -34,7 +34,15 @@ TEXT = {
               'include fuel, the model of ParseTemplateLocation+Render under the standard filters, operators and printing never '
               'ends in `panic`; run_result (the case split on the result type that follows): it ends in output, a value of the '
               'located-error type (that its line and path are meaningful is not part of the statement), or an explicit '
-              '`unmodelled` marker. Proved layer by layer: the scanner is a total function (Lean\'s termination check; scan_total '
+              '`unmodelled` marker. Every file layout is covered, cyclic ones included, with no acyclicity hypothesis '
+              '(run_terminates_all_layouts, Proofs.C01Depth): the only unbounded recursion of the renderer, through {% include %}, is a structural '
+              'recursion on the fuel, the fuel is the number of include levels RenderFile still grants (maxIncludeDepth - depth, 100 for the '
+              'template itself: runStd), with none left the handler IS the error of the repaired code (include nesting too deep), not a gap of '
+              'the model, and an `unmodelled` answer of the handler never stands for depth: it is the `unmodelled` of compiling or rendering a '
+              'file that was found (third clause of the theorem). The input of the repaired defect in closed form: {% include "a" %} with '
+              'a = T{% include "a" %} on the standard engine is the located depth error raised by the 100th nested copy of the file '
+              '(self_include_fails_at_100; for every fuel n: self_include_depth_error, and every self-including file: include_cycle_fails, '
+              'Proofs.C14Depth). Proved layer by layer: the scanner is a total function (Lean\'s termination check; scan_total '
               'adds nothing to it), block parser (parseStep_noPanic/parseTokens_noPanic: the block-stack pop is guarded), expression '
               'parser, compile, render tree (renderRoot_noPanic, include recursion bounded by fuel), and the value layer the '
               'renderer calls (PrimsNoPanic stdPrims stdOut: ==, <, contains, values.Equal, writeObject, and ApplyFilter + '
@@ -57,8 +65,7 @@ TEXT = {
     "design_ref": 'DESIGN.md 6 C01',
     "note": NOTE + ('Parts of the code answered `unmodelled` (counted in evidence) are covered by the oracle on the real code only: '
               'date on a string receiver that is not one of the five all-digit layouts (nor rejected by every layout at its first field), '
-              'strftime widths above 1024, instants beyond +-2^62 s, fmt of a time below an unexported struct field; an include nested deeper than the fuel (the driver runs with fuel 8, so a '
-              'cyclic include is outside the theorem; in Go it recurses without bound); a loop over a range of more than 100000 '
+              'strftime widths above 1024, instants beyond +-2^62 s, fmt of a time below an unexported struct field; a loop over a range of more than 100000 '
               'items and the array conversion of a range of more than 10^6 items; sort of more than 12 elements when the order '
               'is not a strict weak order or when tied elements are distinguishable (unstable sort); a custom block; pointer '
               'identity (== of two non-nil pointers, uniq over pointers); == on struct and array values; conversion of an index '
